@@ -31,6 +31,11 @@ func FuzzC04(f *testing.F) {
 	for i, s := range c08Fixed {
 		f.Add(s, uint32(i))
 	}
+	for _, list := range [][]string{c04EscapeEnum(false), c04NumberEnum(), c04KeywordEnum(), c04BoundaryEnum(false)} {
+		for i := 0; i < len(list); i += 37 {
+			f.Add(list[i], uint32(i))
+		}
+	}
 	all := c04AllOpts()
 	envs := c04RunEnvs()
 	f.Fuzz(func(t *testing.T, src string, sel uint32) {
